@@ -242,7 +242,8 @@ def gen_ers_world(rng, stats=None, force=None):
     n = force.get("n", rng.choice([0, 1, 2, 3, 4, 4, 5, 6, 8, 10]))
     affinity_mode = rng.random() < 0.4
     scenario = force.get("scenario") or rng.choice(["active", "active", "active", "canary", "canary", "active_with_canary", "unknown", "unknown_leftover"])
-    tplA, tplB = gen_template(rng, 1), gen_template(rng, 2)
+    conts = tuple(force.get("containers") or ("main",))
+    tplA, tplB = gen_template(rng, 1, conts), gen_template(rng, 2, conts)
     role_canary = scenario in ("canary", "active_with_canary")
     canary = gen_canary_spec(rng) if (role_canary or rng.random() < 0.3) else None
     if canary is not None and force.get("canary"):
@@ -250,7 +251,18 @@ def gen_ers_world(rng, stats=None, force=None):
     strat, freq = gen_strategy(rng, n, canary)
     if force.get("strategy"):
         freq = K.override_strategy(strat, force["strategy"], freq)
-    nodes = gen_nodes(rng, n)
+    nodes = gen_nodes(rng, n, containers=conts)
+    if force.get("rich_resources"):
+        # more override annotations: per container, well-formed / malformed, limits and requests
+        for nd in nodes:
+            for cname in conts:
+                r = rng.random()
+                key = "%s%s.%s.%s" % (P.RES_PREFIX, NS, EDS, cname)
+                if r < 0.25:
+                    nd["metadata"].setdefault("annotations", {})[key] = json.dumps(
+                        {"limits": {"cpu": rng.choice(["1", "500m", "2"])}, "requests": {"memory": rng.choice(["64Mi", "128Mi"])}})
+                elif r < 0.32:
+                    nd["metadata"].setdefault("annotations", {})[key] = rng.choice(["{not json", "[]", "\"x\""])
     node_names = [x["metadata"]["name"] for x in nodes]
     ann = gen_eds_annotations(rng, role_canary)
     if "annotations" in force:
@@ -285,7 +297,7 @@ def gen_ers_world(rng, stats=None, force=None):
         del e["spec"]["strategy"]["reconcileFrequency"]     # not defaulted
     objs.append(e)
     rs_objs = {}
-    for nm, tpl in (("foo-a", tplA), ("foo-b", tplB), ("foo-z", gen_template(rng, 3))):
+    for nm, tpl in (("foo-a", tplA), ("foo-b", tplB), ("foo-z", gen_template(rng, 3, conts))):
         if nm == target or nm == other or rng.random() < 0.3:
             r_role = "active" if nm == "foo-a" else ("canary" if nm == "foo-b" and role_canary else "unknown")
             st = K.ers_status(status=r_role if rng.random() < 0.8 else "", desired=rng.randint(0, n), current=rng.randint(0, n),
@@ -298,12 +310,14 @@ def gen_ers_world(rng, stats=None, force=None):
     containers = ["main"]
     # settings
     sets = []
-    if rng.random() < 0.3:
+    if rng.random() < (0.8 if force.get("rich_resources") else 0.3):
         for j in range(rng.choice([1, 1, 2])):
+            entries = [(cname, {"limits": {"cpu": rng.choice(["1", "500m", "2"])}, "requests": {"memory": "128Mi"}})
+                       for cname in conts if cname == conts[0] or rng.random() < 0.5]
             sets.append(K.setting(NS, "set%d" % j, rng.choice([EDS, EDS, EDS, "other", None]),
                                   rng.choice([{"matchLabels": {"big": "yes"}}, {"matchLabels": {"zone": "a"}},
                                               {"matchExpressions": [{"key": "big", "operator": "In", "values": []}]}]),
-                                  [("main", {"limits": {"cpu": rng.choice(["1", "500m", "2"])}, "requests": {"memory": "128Mi"}})],
+                                  entries,
                                   status=rng.choice(["valid", "valid", "valid", "error", ""]), created=-1000 - j))
         objs += sets
 
@@ -317,6 +331,9 @@ def gen_ers_world(rng, stats=None, force=None):
         classes[k] = classes.get(k, 0) + 1
         node_class[nn] = k
         pods = gen_pods_for_node(rng, nn, k, target, other if other in rs_objs else None, affinity_mode, nodehash_of)
+        if len(conts) > 1:
+            for p in pods:
+                p["spec"]["containers"] = [{"name": cname, "image": "img:1", "resources": {}} for cname in conts]
         # pods of a setting: give some pods the setting's resources
         for p in pods:
             if sets and rng.random() < 0.5:
